@@ -1,6 +1,7 @@
 import Driver.TypesCodec
 import GarbleVerif.Model.SrcSem
 import GarbleVerif.Model.MatchSpec
+import GarbleVerif.Model.BitSem
 open Lean
 namespace GVD
 open GV GV.Src
@@ -154,5 +155,31 @@ def matchOracle (case : Json) : Json :=
   Json.mkObj [("uncovered", match uncovered ty pats with | some v => valToJson v | none => Json.null),
     ("reps", reps.length), ("rep_values", Json.arr ((reps.take 40).map valToJson).toArray),
     ("first", Json.arr first.toArray), ("witnesses", Json.arr witInfo.toArray)]
+
+end GVD
+
+namespace GVD
+open GV GV.Src GV.Bit
+
+/-- `{prog, inputs}` → what `Model/BitSem.lean` computes for `main` on each argument tuple:
+`{"bits", "panic"}`, or `{"outside": true}` when the program is not in the fragment -/
+def bitEval (case : Json) : Json :=
+  let prog := progFromJson (field case "prog")
+  match prog.fn? "main" with
+  | none => Json.mkObj [("outside", true)]
+  | some d =>
+    Json.mkObj [("results", Json.arr ((getArr (field case "inputs")).map fun args =>
+      let vals := (getArr args).map valFromJson
+      let benv : Option BEnv := (d.params.zip vals).foldl (fun acc ((x, t), v) =>
+        match acc, STy.ofTy t with
+        | some e, some st => some ((x, st, v.encode t) :: e)
+        | _, _ => none) (some [])
+      match benv with
+      | none => Json.mkObj [("outside", true)]
+      | some benv =>
+        match bitStmts benv d.body with
+        | none => Json.mkObj [("outside", true)]
+        | some (_, bits, p) =>
+          Json.mkObj [("bits", bitsToString bits), ("panic", match p with | some k => Json.str (panicName k) | none => Json.null)]).toArray)]
 
 end GVD
